@@ -13,6 +13,8 @@ grep -E '^(VIOLATION|KNOWN-FINDING|ERROR|OBLIGATION|SUMMARY|NOTE|UNDECIDED)' $OU
 mkdir -p $OUT/replay/C01
 rm -f $OUT/c01_bounded.json
 C01_STRIDE=$STRIDE C01_OUT=$OUT/c01_bounded.json replay/overlay_test.sh internal/validator findings/C01/truth_table_test.go TestReplayC01TruthTables -v > $OUT/c01_bounded.log 2>&1; TRC=$?
+replay/overlay_test.sh internal/validator findings/C01/atom_kinds_test.go TestReplayC01AtomKinds -v > $OUT/c01_kinds.log 2>&1; KRC=$?
+export KRC
 python3 - "$TIER" "$RC" "$TRC" "$START" <<'PY'
 import json, sys, time, os, re
 tier, rc, trc, start = sys.argv[1], int(sys.argv[2]), int(sys.argv[3]), float(sys.argv[4])
@@ -36,7 +38,21 @@ else:
                    "replay":{"attempted":True,"confirmed":True,"how":"each entry is a formula and a node (which of ex.a, ex.b, ex.c it has) on which the real validator (go test -overlay, findings/C01/truth_table_test.go) reports differently from the classical reading"}}, open(path,'w'), indent=1)
         print(f"VIOLATION property=C01 replay={path}")
         viol = 1
+klog = open(OUT + '/c01_kinds.log').read() if os.path.exists(OUT + '/c01_kinds.log') else ''
+kfails = [re.sub(r'^\s*zz_replay_test.go:\d+:\s*', '', l) for l in klog.split('\n') if 'C01 violated:' in l]
+kran = re.search(r'^(ok|FAIL|--- (PASS|FAIL))', klog, re.M) is not None
+if not kran:
+    print("ERROR the atom-kinds suite did not run (see out/c01_kinds.log)"); rcx = 2
+elif kfails:
+    path = os.path.abspath(OUT + '/replay/C01/witness_atom_kinds.json')
+    json.dump({"property":"C01","obligation":"witness:atom_kinds_test.go","kind":"witness","failing_inputs":kfails[:60],
+               "replay":{"attempted":True,"confirmed":True,"how":"each entry is a constraint kind, a formula around it and the nodes the working tree reports (go test -overlay, findings/C01/atom_kinds_test.go)"}}, open(path,'w'), indent=1)
+    print(f"VIOLATION property=C01 replay={path}")
+    viol = 1
+elif int(os.environ.get('KRC','0')) != 0:
+    print("ERROR the atom-kinds suite failed without naming a violation (see out/c01_kinds.log)"); rcx = 2
 cov = ev.get('coverage', {})
+cov['atom_kinds_suite'] = {"what":"every constraint kind (27 rows) as the atom of nine formulas (k, not k, not not k, if k then never, if-then-else, or, and, if always then k, not and) on a node where it holds and one where it fails; reported nodes = nodes where the classical reading is false","ran":kran,"failures":len(kfails),"label":"bounded witness search - never counted as proved"}
 cov['bounded'] = None if b is None else {"what":"real validator vs classical truth tables: formulas over three atoms (minCount 1 on ex.a/ex.b/ex.c) with not/and/or/if-then/if-then-else up to depth two, on the eight nodes realising every assignment","formulas":b['formulas'],"of_all_formulas_up_to_depth_two":b['of'],
     "node_checks":b['node_checks'],"disagreements":b['disagreements'],"exhaustive_within_bound":b['formulas']==b['of'],"label":"bounded - never counted as proved"}
 cov['explanation'] = "proof part: %s of %s obligations (SMT, ownership, door) discharged, with the recorded finding on the assumed leaf clauses; bounded part (labelled bounded): sampled formulas up to depth two agree with their classical truth tables on all eight assignments" % (cov.get('discharged'), cov.get('obligations'))
